@@ -684,6 +684,15 @@ func (ex *Exec) doSelect(st *State, fr *Frame, x *ssa.Select, k CallK) {
 		}
 		return ret
 	}
+	if x.Blocking {
+		has := false
+		for _, s := range x.States {
+			if s.Dir == types.RecvOnly && strings.HasPrefix(ex.val(st, fr, s.Chan).Origin, "ctxdone:") {
+				has = true
+			}
+		}
+		ex.ctxAware(st, fr, x, "select", has)
+	}
 	nStates := len(x.States)
 	total := nStates
 	if !x.Blocking {
